@@ -1,6 +1,11 @@
 package bft
 
-import "github.com/canopy-network/canopy/lib"
+import (
+	"sync/atomic"
+
+	"github.com/canopy-network/canopy/lib"
+	"github.com/canopy-network/canopy/lib/crypto"
+)
 
 // zzLog: a LoggerI that does nothing (logging must not influence consensus state; if it did, the
 // engine would show a state difference).
@@ -29,4 +34,90 @@ func zzView(name string) *lib.View {
 		Round:      zzU64(name + ".round"),
 		Phase:      lib.Phase(zzI32(name + ".phase")),
 	}
+}
+
+// zzCtl: the Controller the BFT talks to. Everything it returns is chosen by the harness; what the
+// BFT sends is recorded.
+type zzCtl struct {
+	height, rootHeight uint64
+	valSet             lib.ValidatorSet
+	committeeData      *lib.CommitteeData
+	sentToProposer     []lib.Signable
+	sentToReplicas     []lib.Signable
+	gossiped           []*lib.QuorumCertificate
+	loadCommitteeRoots []uint64
+	syncing            atomic.Bool
+	maxBlockSize       int
+	validateErr        lib.ErrorI
+	minEvidenceHeight  uint64
+}
+
+func (c *zzCtl) Lock()                   {}
+func (c *zzCtl) Unlock()                 {}
+func (c *zzCtl) ChainHeight() uint64     { return c.height }
+func (c *zzCtl) RootChainHeight() uint64 { return c.rootHeight }
+func (c *zzCtl) ProduceProposal(be *ByzantineEvidence, vdf *crypto.VDF) (uint64, []byte, *lib.CertificateResult, lib.ErrorI) {
+	return 0, nil, nil, nil
+}
+func (c *zzCtl) ValidateProposal(rcBuildHeight uint64, qc *lib.QuorumCertificate, evidence *ByzantineEvidence) (*lib.BlockResult, lib.ErrorI) {
+	return nil, c.validateErr
+}
+func (c *zzCtl) LoadCertificate(height uint64) (*lib.QuorumCertificate, lib.ErrorI) { return nil, nil }
+func (c *zzCtl) CommitCertificate(qc *lib.QuorumCertificate, block *lib.Block, blockResult *lib.BlockResult, ts uint64) lib.ErrorI {
+	return nil
+}
+func (c *zzCtl) GossipBlock(certificate *lib.QuorumCertificate, sender []byte, timestamp uint64) {
+	c.gossiped = append(c.gossiped, certificate)
+}
+func (c *zzCtl) GossipConsensus(message *Message, senderPubExclude []byte) {}
+func (c *zzCtl) SelfSendBlock(qc *lib.QuorumCertificate, timestamp uint64) {}
+func (c *zzCtl) SendToReplicas(replicas lib.ValidatorSet, msg lib.Signable) {
+	c.sentToReplicas = append(c.sentToReplicas, msg)
+}
+func (c *zzCtl) SendToProposer(msg lib.Signable)            { c.sentToProposer = append(c.sentToProposer, msg) }
+func (c *zzCtl) LoadRootChainId(height uint64) uint64       { return 1 }
+func (c *zzCtl) LoadIsOwnRoot() bool                        { return true }
+func (c *zzCtl) Syncing() *atomic.Bool                      { return &c.syncing }
+func (c *zzCtl) ResetFSM()                                  {}
+func (c *zzCtl) SendCertificateResultsTx(*lib.QuorumCertificate) {}
+func (c *zzCtl) LoadCommittee(rootChainId, rootHeight uint64) (lib.ValidatorSet, lib.ErrorI) {
+	c.loadCommitteeRoots = append(c.loadCommitteeRoots, rootHeight)
+	return c.valSet, nil
+}
+func (c *zzCtl) LoadCommitteeData() (*lib.CommitteeData, lib.ErrorI) { return c.committeeData, nil }
+func (c *zzCtl) LoadLastProposers(rootHeight uint64) (*lib.Proposers, lib.ErrorI) {
+	return &lib.Proposers{}, nil
+}
+func (c *zzCtl) LoadMinimumEvidenceHeight(rootChainId, rootHeight uint64) (*uint64, lib.ErrorI) {
+	return &c.minEvidenceHeight, nil
+}
+func (c *zzCtl) IsValidDoubleSigner(rootChainId, rootHeight uint64, address []byte) bool { return true }
+func (c *zzCtl) LoadMaxBlockSize() int                                                 { return c.maxBlockSize }
+
+// zzValSet builds a committee of n validators with one-byte public keys {1}..{n} and the given
+// powers through the real lib.NewValidatorSet (key parsing is stubbed, DESIGN §3).
+var zzPubCache = map[int][]byte{}
+
+// zzPub: the public key of validator i. Symbolically a one-byte tag (key parsing is stubbed);
+// natively (replays) a real BLS key so that the real NewValidatorSet accepts it.
+func zzPub(i int) []byte {
+	if zzIsSym() {
+		return []byte{byte(i + 1)}
+	}
+	if k, ok := zzPubCache[i]; ok {
+		return k
+	}
+	pk, _ := crypto.NewBLS12381PrivateKey()
+	zzPubCache[i] = pk.PublicKey().Bytes()
+	return zzPubCache[i]
+}
+
+func zzValSet(powers []uint64) lib.ValidatorSet {
+	cv := &lib.ConsensusValidators{}
+	for i, p := range powers {
+		cv.ValidatorSet = append(cv.ValidatorSet, &lib.ConsensusValidator{PublicKey: zzPub(i), VotingPower: p})
+	}
+	vs, err := lib.NewValidatorSet(cv)
+	zzAssume(err == nil)
+	return vs
 }
